@@ -122,6 +122,9 @@ const (
 	evExit = 2 // a = exit code
 	evOut  = 3 // a = writer, s = text
 	evEnv  = 4
+	evSet   = 5 // a = ival(value), b = itag(value), s = the string passed to Set
+	evClear = 6
+	evMeth  = 7 // any other logged interface method
 )
 
 func (x *Exec) emit(st *State, kind int, a, b, s *Term) {
@@ -251,6 +254,11 @@ func (x *Exec) invoke(st *State, c *ssa.CallCommon, recv *Term, args []Val, pos 
 func (x *Exec) invokeContract(st *State, c *ssa.CallCommon, con *Contract, recv *Term, args []Val, pos token.Pos) []Outcome {
 	// a representative function gives parameter names and the signature: the interface method itself
 	fn := x.ifaceMethodStub(c)
+	for i, n := range con.ParamNames {
+		if i < len(fn.params) {
+			fn.params[i] = n
+		}
+	}
 	return x.callContractSig(st, con, fn, recv, args, pos, c)
 }
 
@@ -289,6 +297,22 @@ func (x *Exec) callContractSig(st *State, con *Contract, ms *methodStub, recv *T
 	ctx.pkgPath = con.PkgPath
 	bindAll(ctx)
 	ctx.evalLets(con)
+	if con.Logged {
+		kind := evMeth
+		sarg := mk("Str", "sempty")
+		switch ms.name {
+		case "Set":
+			kind = evSet
+			if len(argT) > 0 && argT[0].Sort == "Str" {
+				sarg = argT[0]
+			}
+		case "Clear":
+			kind = evClear
+		default:
+			sarg = x.reg.StrLit(ms.name)
+		}
+		x.emit(st, kind, App("Int", "ival", recv), App("Int", "itag", recv), sarg)
+	}
 	for _, r := range con.Requires {
 		g := ctx.boolExpr(r.E, true)
 		n := len(x.obls)
@@ -314,7 +338,9 @@ func (x *Exec) callContractSig(st *State, con *Contract, ms *methodStub, recv *T
 	}
 	for n := range eff {
 		if n == "$trace" {
-			x.havocTrace(st)
+			if !con.Logged {
+				x.havocTrace(st)
+			}
 		} else if n == "$slice" {
 			x.unsupported(st, pos, "implementation of %s writes slice elements in place", key)
 		} else {
